@@ -5,6 +5,7 @@ floor-or-ceiling statement of the theorems.
 import PybropsModel.Lemmas.SamplingFloor
 import PybropsModel.Model.Sampling
 set_option autoImplicit false
+set_option linter.unusedSectionVars false
 
 namespace Sampling
 section
@@ -40,4 +41,128 @@ theorem within1_iff (c : Nat) (e : α) :
       exact ⟨h2, by linarith⟩
 
 end
+/-- counts agree on the members of both lists and lengths agree ⇔ rearrangement -/
+theorem perm_iff_count_mem {β : Type} [DecidableEq β] (b c : List β) :
+    (b.length = c.length ∧ (∀ v ∈ b, b.count v = c.count v) ∧ (∀ v ∈ c, b.count v = c.count v)) ↔ c.Perm b := by
+  constructor
+  · rintro ⟨_, h1, h2⟩
+    rw [List.perm_iff_count]
+    intro v
+    by_cases hb : v ∈ b
+    · exact (h1 v hb).symm
+    · by_cases hc : v ∈ c
+      · exact (h2 v hc).symm
+      · rw [List.count_eq_zero_of_not_mem hb, List.count_eq_zero_of_not_mem hc]
+  · intro h
+    exact ⟨h.length_eq.symm, fun v _ => (h.count_eq v).symm, fun v _ => (h.count_eq v).symm⟩
+
+section sus
+variable {α : Type} [Field α] [LinearOrder α] [IsStrictOrderedRing α] [FloorRing α]
+
+/-- the statement of the SUS clause of the property on a returned flat array `out` -/
+def SusSpec {β : Type} [DecidableEq β] (p : List α) (k : Nat) (a out : List β) : Prop :=
+  out.length = k ∧ (∀ v ∈ out, v ∈ a) ∧
+  ∀ i (_ : i < p.length), ∃ ha : i < a.length,
+    ((out.count a[i] : ℤ) = ⌊(k : α) * p.getD i 0 / Np.sum p⌋ ∨
+     (out.count a[i] : ℤ) = ⌈(k : α) * p.getD i 0 / Np.sum p⌉) ∧
+    (p.getD i 0 = 0 → out.count a[i] = 0)
+
+/-- **the Bool oracle `specSus` decides exactly `SusSpec`** -/
+theorem specSus_iff {β : Type} [DecidableEq β] (p : List α) (k : Nat) (a out : List β) :
+    (specSus p k a out).ok = true ↔ SusSpec p k a out := by
+  unfold SusVerdict.ok specSus SusSpec
+  simp only [Bool.and_eq_true, beq_iff_eq, List.all_eq_true, decide_eq_true_eq, List.isEmpty_iff,
+    List.filter_eq_nil_iff, List.mem_range]
+  constructor
+  · rintro ⟨⟨⟨hl, hm⟩, ho⟩, hz⟩
+    refine ⟨hl, hm, fun i hi => ?_⟩
+    have ho' := ho i hi
+    have hz' := hz i hi
+    cases hai : a[i]? with
+    | none => rw [hai] at ho'; simp at ho'
+    | some v =>
+      obtain ⟨ha, hv⟩ := List.getElem?_eq_some_iff.mp hai
+      rw [hai] at ho' hz'
+      simp only [Bool.not_eq_true', Bool.not_eq_false] at ho'
+      simp only [Bool.and_eq_true, decide_eq_true_eq, not_and, not_not] at hz'
+      refine ⟨ha, ?_, ?_⟩
+      · rw [hv]; exact (within1_iff _ _).mp ho'
+      · rw [hv]; exact hz'
+  · rintro ⟨hl, hm, h⟩
+    refine ⟨⟨⟨hl, hm⟩, fun i hi => ?_⟩, fun i hi => ?_⟩
+    · obtain ⟨ha, h1, _⟩ := h i hi
+      rw [List.getElem?_eq_getElem ha]
+      simp only [Bool.not_eq_true', Bool.not_eq_false]
+      exact (within1_iff _ _).mpr h1
+    · obtain ⟨ha, _, h2⟩ := h i hi
+      rw [List.getElem?_eq_getElem ha]
+      simp only [Bool.and_eq_true, decide_eq_true_eq, not_and, not_not]
+      exact h2
+
+end sus
+
+/-- the statement of the tiled-choice clause -/
+def TiledSpec {β : Type} [DecidableEq β] (a out : List β) (nsample : Nat) : Prop :=
+  out.length = nsample ∧ (∀ v ∈ out, v ∈ a) ∧
+  (∀ u ∈ a, out.count u = nsample / a.length ∨ out.count u = nsample / a.length + 1) ∧
+  (∀ u ∈ a, ∀ v ∈ a, out.count u ≤ out.count v + 1)
+
+theorem specTiled_iff {β : Type} [DecidableEq β] (a out : List β) (nsample : Nat) :
+    specTiled a out nsample = true ↔ TiledSpec a out nsample := by
+  unfold specTiled TiledSpec
+  simp only [Bool.and_eq_true, beq_iff_eq, List.all_eq_true, decide_eq_true_eq]
+  tauto
+
+/-- the statement of the axis-shuffle clause: every requested slice holds a rearrangement of what it held -/
+def AxisSpec {β : Type} (shape axis : List Nat) (before after : List β) : Prop :=
+  after.length = before.length ∧
+  ∀ key ∈ sliceKeys shape axis, (sliceVals shape axis after key).Perm (sliceVals shape axis before key)
+
+theorem specAxis_iff {β : Type} [DecidableEq β] (shape axis : List Nat) (before after : List β) :
+    specAxis shape axis before after = true ↔ AxisSpec shape axis before after := by
+  unfold specAxis specAxisBad AxisSpec
+  simp only [Bool.and_eq_true, beq_iff_eq, List.isEmpty_iff, List.filter_eq_nil_iff, Bool.not_eq_true',
+    Bool.not_eq_false, List.all_eq_true, decide_eq_true_eq]
+  constructor
+  · rintro ⟨hl, h⟩
+    refine ⟨hl, fun key hk => ?_⟩
+    obtain ⟨⟨h1, h2⟩, h3⟩ := h key hk
+    exact (perm_iff_count_mem _ _).mp ⟨h1, h2, h3⟩
+  · rintro ⟨hl, h⟩
+    refine ⟨hl, fun key hk => ?_⟩
+    obtain ⟨h1, h2, h3⟩ := (perm_iff_count_mem _ _).mpr (h key hk)
+    exact ⟨⟨h1, h2⟩, h3⟩
+
+/-- the statement of the outcross-shuffle clause -/
+def OutcrossSpec {β : Type} [DecidableEq β] (nrow ncol : Nat) (before after : List β) : Prop :=
+  after.Perm before ∧
+  (∀ r < nrow, dupCount (row ncol after r) ≤ dupCount (row ncol before r)) ∧
+  (∀ i j, i < j → j < after.length → score nrow ncol after ≤ score nrow ncol (swap after i j)) ∧
+  score nrow ncol after ≤ score nrow ncol before
+
+theorem mem_allPairs' (n : Nat) (ij : Nat × Nat) : ij ∈ allPairs n ↔ ij.1 < ij.2 ∧ ij.2 < n := by
+  obtain ⟨i, j⟩ := ij
+  unfold allPairs
+  simp only [List.mem_flatMap, List.mem_range, List.mem_map, List.mem_filter, decide_eq_true_eq, Prod.mk.injEq]
+  constructor
+  · rintro ⟨a, _, b, ⟨hb, hab⟩, rfl, rfl⟩; exact ⟨hab, hb⟩
+  · rintro ⟨h1, h2⟩; exact ⟨i, by omega, j, ⟨h2, h1⟩, rfl, rfl⟩
+
+theorem specOutcross_iff {β : Type} [DecidableEq β] (nrow ncol : Nat) (before after : List β) :
+    (specOutcross nrow ncol before after).ok = true ↔ OutcrossSpec nrow ncol before after := by
+  unfold OutcrossVerdict.ok specOutcross OutcrossSpec
+  simp only [Bool.and_eq_true, beq_iff_eq, List.all_eq_true, decide_eq_true_eq, List.isEmpty_iff,
+    List.filter_eq_nil_iff, not_lt, List.mem_range]
+  constructor
+  · rintro ⟨⟨⟨⟨⟨hl, h1⟩, h2⟩, hr⟩, hi⟩, hs⟩
+    refine ⟨(perm_iff_count_mem before after).mp ⟨hl.symm, h1, h2⟩, hr, ?_, hs⟩
+    intro i j hij hj
+    exact hi (i, j) ((mem_allPairs' _ _).mpr ⟨hij, hj⟩)
+  · rintro ⟨hp, hr, hi, hs⟩
+    obtain ⟨hl, h1, h2⟩ := (perm_iff_count_mem before after).mpr hp
+    refine ⟨⟨⟨⟨⟨hl.symm, h1⟩, h2⟩, hr⟩, ?_⟩, hs⟩
+    intro ij hij
+    obtain ⟨h1', h2'⟩ := (mem_allPairs' _ _).mp hij
+    exact hi ij.1 ij.2 h1' h2'
+
 end Sampling
